@@ -40,6 +40,7 @@ TReset ==
   /\ hist' = <<>> /\ rcount' = 0 /\ ucount' = 0
 
 TPeerSend  == IsEvent("PeerSend") /\ PeerSend(E.n, E.s) /\ UNCHANGED <<rcount, ucount>>
+TPeerTrunc == IsEvent("PeerTrunc") /\ PeerTruncated(E.n, E.k) /\ UNCHANGED <<rcount, ucount>>
 TPeerClose == IsEvent("PeerClose") /\ PeerClose /\ UNCHANGED <<rcount, ucount>>
 \* read() may only be called again when the previous call's result has been reported
 TReadCall  == IsEvent("ReadCall") /\ rcount = Len(results) /\ ucount = Len(units) /\ ReadCall /\ UNCHANGED <<rcount, ucount>>
@@ -98,7 +99,7 @@ TSilent == /\ \/ (pc = "loop" /\ TryDecode)
               \/ (Atomic /\ wleft > 0 /\ WriteAccept(wleft))
            /\ UNCHANGED <<l, rcount, ucount>>
 
-TNext == \/ TReset \/ TPeerSend \/ TPeerClose \/ TReadCall \/ TTRead \/ TTWrite \/ TResult
+TNext == \/ TReset \/ TPeerSend \/ TPeerTrunc \/ TPeerClose \/ TReadCall \/ TTRead \/ TTWrite \/ TResult
          \/ TPeerDgram \/ TPeerWsMsg \/ TUnit \/ TCancel \/ TWriteCall \/ TWriteDone \/ TSkipped \/ TSilent
 TSpec == TInit /\ [][TNext]_tvars
 
